@@ -327,6 +327,14 @@ impl CtcDecoder {
             topk_extensions.clear();
             for bi in 0..beam.len() {
                 for label in 0..n_labels {
+                    // Extensions which produce the prefix of another beam
+                    // state were merged into that state above. Offering them
+                    // again here would add a second state with the same
+                    // prefix to the beam.
+                    if label != 0 && merges.contains_key(&(bi, label as u32)) {
+                        continue;
+                    }
+
                     let prob_sum = log_sum_exp([
                         next_prob_blank[[bi, label]],
                         next_prob_no_blank[[bi, label]],
